@@ -3,7 +3,7 @@
 From Coq Require Import List NArith ZArith Bool Arith Lia.
 From SK Require Import lib.Tok lib.LGraph lib.Mono.
 From SK Require model.C06_Model model.C11_Model.
-From SK Require Import model.C03_Model model.C05_Model proof.C05_Proof proof.C05_Glue proof.C05_Pipe proof.C05_Prep proof.C05_Comp proof.C05_Main proof.C05_Order proof.C05_Sub proof.C05_Set proof.C05_Result proof.C05_AllStrat proof.C05_PrepOrder proof.C05_Final proof.C05_Default proof.C05_Rewrite proof.C05_Capstone proof.C05_Cap proof.C05_AnyCap proof.C05_Prefilter.
+From SK Require Import model.C03_Model model.C05_Model proof.C05_Proof proof.C05_Glue proof.C05_Pipe proof.C05_Prep proof.C05_Comp proof.C05_Main proof.C05_Order proof.C05_Sub proof.C05_Set proof.C05_Result proof.C05_AllStrat proof.C05_PrepOrder proof.C05_Final proof.C05_Default proof.C05_Rewrite proof.C05_Capstone proof.C05_Cap proof.C05_AnyCap proof.C05_Prefilter proof.C05_Enum.
 From SK Require Import lib.C06_Spec proof.C06_Comp proof.C06_Main.
 Import ListNotations.
 
@@ -382,3 +382,16 @@ Example any_options_nonvacuous :
   @prefilter_fires (thr_of (Some 0%N)) hx_host hx_p = true /\
   @glued_of_pf (thr_of (Some 0%N)) true 0%N hx_host_r2 (relabel_prep sz_sg hx_p) = [].
 Proof. repeat split; vm_compute; reflexivity. Qed.
+
+(** the enumeration order: the 8 raw matches of the metathesis rule on C=C.C=C listed backwards with every match written
+    backwards — the pruning keeps OTHER representatives, the same number of glued graphs results (and, by the theorem, the
+    same graphs up to [obs_eq]) *)
+Definition mt_raw := raw_of 0%N mt_host mt_p.
+Definition mt_raw' := rev (map (fun m : mapping => rev m) mt_raw).
+Example enumeration_nonvacuous :
+  side_okb mt_host mt_p = true /\
+  prune (p_rc mt_p) mt_raw' <> prune (p_rc mt_p) mt_raw /\
+  forallb (fun k' => negb (existsb (fun k => C11_Model.set_eqb k k') (prune (p_rc mt_p) mt_raw))) (prune (p_rc mt_p) mt_raw') = true /\
+  length (flat_map (glue1 mt_host (p_rc mt_p)) (prune (p_rc mt_p) mt_raw')) = 2%nat /\
+  length (glued_of 0%N mt_host mt_p) = 2%nat.
+Proof. repeat split; try (vm_compute; reflexivity). vm_compute. discriminate. Qed.
